@@ -393,7 +393,10 @@ class Context:
                 defined_types.append(typ)
                 typ = typ.typ
             elif isinstance(typ, (ast.Identifier, ast.Member)):
+                loc = typ.loc
                 typ = self.resolve_symbol(typ)
+                if not isinstance(typ, ast.Type):
+                    raise SemanticError(f"{typ.name} is not a type", loc)
             else:
                 break
 
